@@ -530,6 +530,9 @@ func checkMain(id, tier string) int {
 	}
 	fmt.Printf("%s %s: scenarios=%d states=%d transitions=%d depth=%d exhaustive_within_bounds=%v violations=%d wall=%.1fs\n",
 		id, tier, len(jobs), agg.States, agg.Transitions, agg.MaxDepth, agg.Exhaustive, nviol, time.Since(start).Seconds())
+	if exit == 1 {
+		return 1 // a confirmed violation is reported even if another scenario of the family could not be run
+	}
 	if hardErr {
 		return 2
 	}
